@@ -244,6 +244,14 @@ def step_definitions(plan):
     return defs
 
 
+def typed_step_definitions(plan):
+    """[(step type, pattern, function)]: one text bound per step type (passing for given, failing for
+    then, nothing for when)."""
+    lookup = dict((f.__name__, f) for _p, f in step_definitions(plan))
+    return [("given", u"step {uid:w} depends", lookup["do_pass"]),
+            ("then", u"step {uid:w} depends", lookup["do_fail"])]
+
+
 def ensure_types():
     from behave.matchers import ParseMatcher
     if not ParseMatcher.has_registered_type("Bad"):
@@ -259,6 +267,8 @@ def build_registry(plan):
     registry = StepRegistry()
     for pattern, func in step_definitions(plan):
         registry.add_step_definition("step", pattern, func)
+    for stype, pattern, func in typed_step_definitions(plan):
+        registry.add_step_definition(stype, pattern, func)
     return registry
 
 
